@@ -2611,6 +2611,8 @@ class SliceDataset(Dataset):
 
     def __getitem__(self, item):
         if isinstance(item, str):
+            if item not in self.keys():
+                raise KeyErrorCloseMatches(item, self.keys())
             return self.input_dataset[item]
         elif isinstance(item, numbers.Integral):
             return self.input_dataset[self.slice[item]]
